@@ -20,12 +20,19 @@
    "opfs"   every layout of an EPUB package document (prefixed / default namespace, title first / last, dc
             elements with attributes, version 2 / 3) x 3 property values.
    "alts"   pictures' alternative texts: (format x name x title x description), each absent / empty / blank / text.
+   "srcs"   where a picture's bytes come from: (format x first / middle / last picture x http / https / dangling /
+            outside the package).
+   "lens"   picture geometry: ODF frames with every kind of length value for width / height / x / y, OOXML extents
+            with odd EMU values.
+   "pdfs"   tagged PDFs whose figure caption / description strings hold a byte of PdfBytes (or an unpaired UTF-16
+            surrogate), in every place the extractor reads them from.
+   "ncrs"   HTML numeric character references that denote no character, in title / meta / body / alt / cell.
    "units"  every run of <= MaxUnits RTF \uN code units over {A, e-acute, a high surrogate, a low
             surrogate}: TLC checks that the reference decoding is always well-formed Unicode and
             inverts ToUnits; each run is written into an RTF title and body.                     *)
 EXTENDS Iface
 
-CONSTANTS Mode, MaxDirs, MaxVal, MaxUnits, Full, Formats
+CONSTANTS Mode, MaxDirs, MaxVal, MaxUnits, Full, Formats, PdfBytes
 
 VARIABLE c
 vars == <<c>>
@@ -104,8 +111,44 @@ AltFormats == {"odt", "ods", "odp", "odg", "docx", "pptx", "xlsx"}
 Alts == { [fmt |-> f, name |-> n, title |-> t, desc |-> d] :
             f \in AltFormats \cap Formats, n \in {"absent", "text"}, t \in AltKinds, d \in AltKinds }
 
+(* ---- where a picture's bytes come from ---- *)
+\* embedded (the writers' default), linked by an http / https URL (ODF xlink:href, OOXML external relationship +
+\* r:link), a package path that does not exist, a relative path outside the package; for the first, a middle
+\* and the last picture of a document with four pictures
+SrcKinds == {"http", "https", "dangling", "outside"}
+Srcs == { [fmt |-> f, pos |-> p, src |-> k] : f \in AltFormats \cap Formats, p \in {"first", "middle", "last"}, k \in SrcKinds }
+
+(* ---- picture geometry ---- *)
+\* ODF length attributes svg:width / svg:height / svg:x / svg:y of a picture frame in every unit and shape;
+\* OOXML extents (EMU integers) cx / cy with odd values
+LenKinds == {"cm", "mm", "in", "pt", "px", "pc", "percent", "comma", "exponent", "negative", "empty", "garbage",
+             "missing", "nounit", "spaced", "huge", "zero", "dotonly", "nan", "unitonly", "twounits"}
+EmuKinds == {"zero", "negative", "huge", "nonnumeric", "empty", "missing", "float", "plus"}
+Lens == { [fmt |-> f, attr |-> a, len |-> k] : f \in {"odt", "ods", "odp", "odg"} \cap Formats,
+                                                a \in {"width", "height", "x", "y", "both"}, k \in LenKinds }
+        \cup { [fmt |-> f, attr |-> a, len |-> k] : f \in {"docx", "pptx", "xlsx"} \cap Formats,
+                                                    a \in {"cx", "cy", "both"}, k \in EmuKinds }
+
+(* ---- strings that are not Unicode text in the file ---- *)
+\* PDF: a byte 127..255 inside the string that becomes a picture's caption / description: the caption paragraph
+\* after the figure (next MCID), text in the figure's own MCID, a TJ array, an /ActualText property, the /Alt
+\* entry of the image; written as a literal string (octal escape) or as a hex string.  "utf16" = a UTF-16BE
+\* text string with an unpaired surrogate (only where a PDF text string is allowed: ActualText, Alt)
+PdfPlaces == {"caption", "same", "tjarray", "actualtext", "alt"}
+PdfCases == { [byte |-> b, place |-> pl, enc |-> e] : b \in PdfBytes, pl \in PdfPlaces, e \in {"literal", "hex"} }
+             \cup { [byte |-> b, place |-> pl, enc |-> "utf16"] : b \in {55357, 56832}, pl \in {"actualtext", "alt"} }
+\* HTML numeric character references that do not denote a character: lone surrogates, a pair written as two
+\* references, beyond U+10FFFF, NUL -- in the title, a meta element, the body, an img alt text, a table cell
+NcrRefs == {"hi", "lo", "pair", "beyond", "nul", "c1"}
+Ncrs == { [fmt |-> f, place |-> pl, ref |-> r] : f \in {"html", "mhtml"} \cap Formats,
+                                                 pl \in {"title", "meta", "body", "alt", "cell"}, r \in NcrRefs }
+
 Init ==
-    CASE Mode = "heads" -> c \in { [kind |-> "head", fmt |-> f, layout |-> y, val |-> v] :
+    CASE Mode = "srcs" -> c \in { [kind |-> "src", x |-> a] : a \in Srcs }
+      [] Mode = "lens" -> c \in { [kind |-> "len", x |-> a] : a \in Lens }
+      [] Mode = "pdfs" -> c \in { [kind |-> "pdf", x |-> a] : a \in PdfCases }
+      [] Mode = "ncrs" -> c \in { [kind |-> "ncr", x |-> a] : a \in Ncrs }
+      [] Mode = "heads" -> c \in { [kind |-> "head", fmt |-> f, layout |-> y, val |-> v] :
                                      f \in {"html", "mhtml"} \cap Formats, y \in HeadLayouts, v \in LayoutVals }
       [] Mode = "opfs" -> c \in { [kind |-> "opf", fmt |-> "epub", layout |-> y, val |-> v] :
                                      y \in OpfLayouts, v \in LayoutVals }
